@@ -280,8 +280,21 @@ def buffers(o, path="", seen=None, out=None, max_depth=10):
 def flip(arr, index=0):
     """Write a different value into one element of `arr` in place; returns the old value (or None if
     the array is empty / read-only)."""
-    if arr.size == 0 or not arr.flags.writeable:
+    if arr.size == 0:
         return None
+    if not arr.flags.writeable:
+        # a read-only array whose memory is owned by a writable array (a view handed out read-only, e.g. by
+        # as_vector(), or built with copy=False from a protected view) can still be written by whoever holds the
+        # owner: do the write through it.  Memory that is read-only at its owner is left alone.
+        try:
+            arr.setflags(write=True)
+        except ValueError:
+            return None
+        try:
+            tok = flip(arr, index)
+        finally:
+            arr.setflags(write=False)
+        return ("ro", tok)
     flat = arr.reshape(-1) if arr.flags.c_contiguous else None
     if flat is None or not np.shares_memory(flat, arr):
         idx = np.unravel_index(index % arr.size, arr.shape)
@@ -304,6 +317,13 @@ def _other(v, dtype):
 
 def unflip(arr, token):
     if token is None:
+        return
+    if token[0] == "ro":
+        arr.setflags(write=True)
+        try:
+            unflip(arr, token[1])
+        finally:
+            arr.setflags(write=False)
         return
     i, old = token
     if isinstance(i, tuple):
